@@ -31,4 +31,28 @@ PROPS = {
             "len/substring unit is inferred from the observed len (bytes or characters); only consistency is required",
         ],
     ),
+    "C02": dict(
+        rule="a case is one rendering of an expression: every token sequence up to the length bound over the token "
+             "alphabets (exhaustive), every AST with <= 3 operator nodes over all 14 binary / 2 prefix / 9 assignment "
+             "operators, call, tuple, chain in minimal / full / random redundant parenthesisation (exhaustive), and "
+             "random ASTs to depth 12; the reference parser (Pratt, README table) classifies it and for well-formed "
+             "input the implementation tree (RootNode wrappers stripped) must equal the reference AST; "
+             "non-trivial = classified well-formed (and, for rendered ASTs, the rendering parses back to the AST "
+             "in the reference: oracle self-check); distinct = distinct source texts",
+        assumptions=COMMON + [
+            "not claimed and skipped: assignment with a non-identifier target, mixed chains of assignment operators, "
+            "a prefix operator as right operand of ^ followed by ^",
+        ],
+    ),
+    "C13": dict(
+        rule="a case is one token sequence (every sequence up to the length bound over three alphabets, plus random "
+             "damaged programs); the reference recogniser classifies it ill-formed (unbalanced parentheses / operator "
+             "without operand / juxtaposed operands); a violation needs the real code to precompile it to a tree of "
+             "correct arity AND to evaluate it successfully in one of 12 contexts (or to accept unbalanced / report "
+             "balanced input as unbalanced); non-trivial = classified ill-formed; distinct = distinct source texts",
+        assumptions=COMMON + [
+            "ill-formed inputs whose tree has correct arity but evaluate in none of the 12 probe contexts are counted as "
+            "unconfirmed, not reported",
+        ],
+    ),
 }
